@@ -34,9 +34,13 @@ def _library_site(tb_text, repo_dir):
     frames = re.findall(r'File "([^"]+)", line \d+, in (\S+)', first)
     if not frames:
         return None
-    path, fn = frames[-1]
-    if path.startswith(repo_dir.rstrip('/') + '/') and '/mosromgr/' in path:
-        return f"{path.split('/mosromgr/')[-1]}:{fn}"
+    # the deepest frame that belongs either to the library or to this machinery decides
+    # (frames below it are the standard library / third parties called from there)
+    for path, fn in reversed(frames):
+        if path.startswith(repo_dir.rstrip('/') + '/') and '/mosromgr/' in path:
+            return f"{path.split('/mosromgr/')[-1]}:{fn}"
+        if path.startswith(HERE.rstrip('/') + '/'):
+            return None
     return None
 
 
